@@ -10,7 +10,7 @@ run_one() {
   git -C /repo worktree add -q --detach "$wt" HEAD || { echo -e "$id\t$prop\tERR\tworktree"; return; }
   if ! git -C "$wt" apply "$d/patch.diff" 2>/dev/null; then echo -e "$id\t$prop\tERR\tpatch does not apply"; git -C /repo worktree remove --force "$wt"; return; fi
   rp=/tmp/seedmx-replays-$id-$$; mkdir -p "$rp"
-  out=$(VERIF_REPO="$wt" ./check "$prop" --tier quick 2>/dev/null); rc=$?
+  out=$(VERIF_REPLAY_DIR="$rp" VERIF_REPO="$wt" ./check "$prop" --tier quick 2>/dev/null); rc=$?
   nv=$(echo "$out" | grep -c '^VIOLATION')
   kinds=$(echo "$out" | grep '^VIOLATION' | sed -n 's/.*replay=\([^ ]*\).*/\1/p' | while read f; do jq -r '(.violation.kind // empty), (if .no_failing_input_found then "BROKEN-TIE:" + ((.no_longer_checks // []) | map(.[0:60]) | join(" | ")) else empty end)' "$f" 2>/dev/null; done | sort | uniq -c | sort -rn | awk '{c=$1; $1=""; printf "%s×%s; ", substr($0,2), c}')
   echo -e "$id\t$prop\t$rc\t$nv\t$kinds"
